@@ -84,6 +84,7 @@ class Frame:
         self.bindings = bindings or {}   # param -> (ast expr, parent frame)
         self.depth = 0 if parent is None else parent.depth + 1
         self.via = via            # 'call' | 'with'
+        self.call_stmt = None     # statement (ast) containing the call
 
     def chain(self):
         f = self
@@ -222,6 +223,7 @@ class Builder:
         self.inline_filter = inline      # callable(Target, Frame) -> bool
         self.max_nodes = max_nodes
         self.bound_hit = []              # calls not inlined because of depth
+        self.inlined = set()             # (id(call ast), caller frame id)
         self.unresolved = 0
         self.resolved = 0
 
@@ -231,6 +233,10 @@ class Builder:
         g = CFG()
         self.g = g
         root = Frame(func, cls, self_path=self_path)
+        if cls is not None and func.cls is None and func.params:
+            # module function installed as a method (BaseStorage.
+            # checkCurrentSerialInTransaction = ...): first parameter is self
+            root.bindings[func.params[0]] = (None, None, 'self')
         g.root = root
         g.exit_return = g.new('exit-return', None, root).id
         g.exit_raise = g.new('exit-raise', None, root).id
@@ -295,9 +301,9 @@ class Builder:
         if self.may_raise(exprs, fr):
             for t in k.exc(None):
                 n.succ.append((t, 'e'))
-        return self.inline_calls(exprs, n.id, k, fr)
+        return self.inline_calls(exprs, n.id, k, fr, s)
 
-    def inline_calls(self, exprs, entry, k, fr):
+    def inline_calls(self, exprs, entry, k, fr, stmt=None):
         calls = []
         for e in exprs:
             calls.extend(calls_in_order(e))
@@ -307,7 +313,7 @@ class Builder:
                 continue
             if not self.want_inline(tgt, fr, call):
                 continue
-            entry = self.inline(call, tgt, fr, entry, k)
+            entry = self.inline(call, tgt, fr, entry, k, stmt)
         return entry
 
     def want_inline(self, tgt, fr, call):
@@ -365,8 +371,10 @@ class Builder:
                      self_path=tgt.self_path if tgt.self_path else ('self',),
                      bindings=bindings, via=via)
 
-    def inline(self, call, tgt, fr, after, k):
+    def inline(self, call, tgt, fr, after, k, stmt=None):
         nf = self.make_frame(call, tgt, fr)
+        nf.call_stmt = stmt
+        self.inlined.add((id(call), fr.id))
         self.resolved += 1
         cr = self.g.new('callret', call, nf, {'target': tgt})
         cr.succ.append((after, 'n'))
@@ -393,7 +401,7 @@ class Builder:
         if self.may_raise([test], fr):
             for t in k.exc(None):
                 n.succ.append((t, 'e'))
-        return self.inline_calls([test], n.id, k, fr)
+        return self.inline_calls([test], n.id, k, fr, s)
 
     def stmt_While(self, s, k, fr, yb):
         head = self.g.new('loophead', s, fr)
@@ -420,7 +428,7 @@ class Builder:
         if self.may_raise([s.iter], fr):
             for t in k.exc(None):
                 it.succ.append((t, 'e'))
-        return self.inline_calls([s.iter], it.id, k, fr)
+        return self.inline_calls([s.iter], it.id, k, fr, s)
 
     stmt_AsyncFor = stmt_For
 
@@ -465,7 +473,7 @@ class Builder:
         n.info['raised'] = raised
         for t in targets:
             n.succ.append((t, 'e'))
-        return self.inline_calls(exprs, n.id, k, fr)
+        return self.inline_calls(exprs, n.id, k, fr, s)
 
     def stmt_Assert(self, s, k, fr, yb):
         n = self.g.new('assert', s, fr)
@@ -476,7 +484,7 @@ class Builder:
             if t not in seen:
                 seen.add(t)
                 n.succ.append((t, 'e'))
-        return self.inline_calls([s.test], n.id, k, fr)
+        return self.inline_calls([s.test], n.id, k, fr, s)
 
     def stmt_FunctionDef(self, s, k, fr, yb):
         n = self.g.new('def', s, fr)
@@ -680,7 +688,7 @@ class Builder:
             n.succ.append((body, 'n'))
             for t in k.exc(None):
                 n.succ.append((t, 'e'))
-            return self.inline_calls([ce], n.id, k, fr)
+            return self.inline_calls([ce], n.id, k, fr, s)
 
         return self.protected(build_body, build_cleanup, k, fr, has_ret,
                               has_brk, has_cont, s)
@@ -718,6 +726,8 @@ class Builder:
         we can see: the generator body is inlined and the with-body is
         spliced in at its `yield`."""
         nf = self.make_frame(call, tgt, fr, via='with')
+        nf.call_stmt = s
+        self.inlined.add((id(call), fr.id))
         self.resolved += 1
         after_yield = {}
 
